@@ -188,6 +188,7 @@ func runCheck(spec *PropSpec, tier string, seed, workers int) int {
 		cfg.MaxSeconds = 420
 		if tier == "thorough" {
 			cfg.MaxSeconds = 5400
+			cfg.MaxPaths = 3000000
 		}
 		if hs.Unwind > 0 {
 			cfg.Unwind = hs.Unwind
@@ -383,6 +384,7 @@ func lastLines(s string, n int) string {
 func writeEvidence(ctx *checkCtx, results []*HarnessResult, stats *SolverStats, head string, loadSecs, wall float64) {
 	spec := ctx.spec
 	paths, asserts, triv, steps := 0, 0, 0, int64(0)
+	decisions := 0
 	nontriv := 0
 	byStatus := map[string]int{}
 	funcs := map[string]int{}
@@ -393,6 +395,7 @@ func writeEvidence(ctx *checkCtx, results []*HarnessResult, stats *SolverStats, 
 		asserts += hr.Asserts
 		triv += hr.TrivAssert
 		steps += hr.Steps
+		decisions += hr.Decisions
 		for k, v := range hr.ByStatus {
 			byStatus[k] += v
 		}
